@@ -112,6 +112,8 @@ def component_values(drv, outdir, lemma_of=None, imports='Params ParamsFoot Inde
 
 
 def _details(drv):
+    """the findings of build/footprint.json by kind; each carries its words with the real names ('words') and with the
+    canonical identifiers of ParamsFoot.v ('canonical_words'), which is what the tables are compared on"""
     details = {}
     fj = os.path.join(drv.BUILD, 'footprint.json')
     if os.path.exists(fj):
@@ -119,10 +121,50 @@ def _details(drv):
             rep = json.load(open(fj))
             for tag in ('untagged', 'verif'):
                 for d in ((rep.get(tag) or {}).get('details') or []):
+                    d = dict(d, match=d.get('canonical_words') or d['words'])
                     details.setdefault(d['what'], []).append(d)
         except ValueError:
             pass
     return details
+
+
+def _names(drv):
+    """canonical identifier of ParamsFoot.v -> the real names it stands for (from build/footprint.json)"""
+    fj = os.path.join(drv.BUILD, 'footprint.json')
+    try:
+        rep = json.load(open(fj))
+        return (rep.get('untagged') or {}).get('canonical_names') or {}
+    except (OSError, ValueError):
+        return {}
+
+
+def realise(names, text):
+    """append the real names to the canonical identifiers occurring in a sentence: agent.iterator_.slice0 (= values_)"""
+    for c in sorted(names, key=len, reverse=True):
+        if c not in text:
+            continue
+        reals = names[c]
+        if c.endswith('<private>'):
+            short = [r.rsplit('.', 1)[-1] for r in reals]
+            shown = ', '.join(short[:5]) + (' ...' if len(short) > 5 else '')
+        else:
+            shown = ', '.join(r.rsplit('.', 1)[-1] for r in reals)
+        marker = '\x00%d\x00' % len(shown)   # protect against a second replacement inside the inserted text
+        out, i = [], 0
+        while True:
+            j = text.find(c, i)
+            if j < 0:
+                out.append(text[i:])
+                break
+            end = j + len(c)
+            before_ok = j == 0 or not (text[j - 1].isalnum() or text[j - 1] in '_.')
+            after_ok = end == len(text) or not (text[end].isalnum() or text[end] == '_')
+            out.append(text[i:end])
+            if before_ok and after_ok and not text[end:end + 4] == ' (= ':
+                out.append(' (= %s)' % shown)
+            i = end
+        text = ''.join(out)
+    return text
 
 
 def alias_differences(drv):
@@ -133,7 +175,7 @@ def alias_differences(drv):
 
     def at(what, *needles):
         for d in details.get(what, []):
-            if all(n in d['words'] for n in needles):
+            if all(n in d['match'] for n in needles):
                 return ' (%s: %s)' % (d['at'], d['where'])
         return ''
 
@@ -183,10 +225,13 @@ def alias_differences(drv):
     if regen.get('foot_publish_once', []) != expect.get('expected_publish_once', []):
         add('alias_in_place_discipline_current', 'publish-once fields (only ever set to fresh memory, never written in place): found %s, expected %s' % (regen.get('foot_publish_once'), expect.get('expected_publish_once')))
     for e in regen.get('foot_shared_edges', []):
-        if e[0].startswith('arg 1:values of agent.(*iteratorClass_).MakeFromArray'):
+        if e[0].startswith('arg 1 of agent.(*iteratorClass_).MakeFromArray'):
             add('alias_iterators_over_copies_current', 'Iterator.MakeFromArray (which keeps its argument) is handed something that is not a fresh copy: %s%s' % (e[1], at('shared-edge', e[0], e[1])))
     regenerated = dict(foot_api_not_clean=got, foot_storage_writes=got_sw, foot_field_sets=regen.get('foot_field_sets'), foot_publish_once=regen.get('foot_publish_once'))
     expected = dict(foot_api_not_clean=want, foot_storage_writes=want_sw, foot_field_sets=[], foot_publish_once=expect.get('expected_publish_once'))
+    names = _names(drv)
+    for d in diffs:
+        d['words'] = realise(names, d['words'])
     return diffs, regenerated, expected
 
 
@@ -200,20 +245,11 @@ def differences(drv):
     regen = coq_tables(os.path.join(drv.COQ, 'ParamsFoot.v'))
     expect = coq_tables(os.path.join(drv.COQ, 'IndepFacts.v'))
     params = coq_tables(os.path.join(drv.COQ, 'Params.v'), {'registry_locked', 'package_vars'})
-    details = {}
-    fj = os.path.join(drv.BUILD, 'footprint.json')
-    if os.path.exists(fj):
-        try:
-            rep = json.load(open(fj))
-            for tag in ('untagged', 'verif'):
-                for d in ((rep.get(tag) or {}).get('details') or []):
-                    details.setdefault(d['what'], []).append(d)
-        except ValueError:
-            pass
+    details = _details(drv)
 
     def at(what, *needles):
         for d in details.get(what, []):
-            if all(n in d['words'] for n in needles):
+            if all(n in d['match'] for n in needles):
                 return ' (%s)' % d['at']
         return ''
 
@@ -267,9 +303,11 @@ def differences(drv):
             if alien:
                 add('static_methods_write_own_current', 'method %s writes outside its own receiver: %s' % (name, ', '.join(alien)))
     got, want = [tuple(x) for x in regen.get('foot_escapes', [])], [tuple(x) for x in expect.get('expected_escapes', [])]
-    for e in got:
-        if e not in want:
-            add('static_methods_write_own_current', 'NEW write through memory that is neither the receiver\'s nor allocated in the call: %s writes through %s%s' % (e[0], e[1], at('escape', e[0], e[1])))
+    new_esc = [e for e in got if e not in want]
+    for e in new_esc[:6]:
+        add('static_methods_write_own_current', 'NEW write through memory that is neither the receiver\'s nor allocated in the call: %s writes through %s%s' % (e[0], e[1], at('escape', e[0], e[1])))
+    if len(new_esc) > 6:
+        add('static_methods_write_own_current', '... and %d further functions that now write through a parameter: %s' % (len(new_esc) - 6, '; '.join('%s (%s)' % e for e in new_esc[6:])))
     for e in want:
         if e not in got:
             add('static_methods_write_own_current', 'expected in-place write no longer found: %s through %s' % e)
@@ -278,6 +316,9 @@ def differences(drv):
     expected = dict(foot_class_mutable=[], foot_foreign_writes=[], foot_shared_edges=expect.get('expected_shared_edges'), foot_pkgvar_unguarded=[],
                     foot_verif_pkgvar_unguarded=[], foot_exported_vars=expect.get('expected_exported_vars'), foot_verif_exported_vars=expect.get('expected_verif_exported_vars'),
                     foot_accessors='%s, every flag true' % (expect.get('expected_accessors'),), foot_escapes=expect.get('expected_escapes'))
+    names = _names(drv)
+    for d in diffs:
+        d['words'] = realise(names, d['words'])
     return diffs, regenerated, expected
 
 
